@@ -612,7 +612,19 @@ func fairPick(r *run, pf []string, before, after *scheduler.VerifState, pq, sc i
 				}
 			}
 		}
-		if idx >= 0 {
+		// another worker of the queue that parked or was woken in the same segment (several workers
+		// released by one RemoveDrain) changed idleSynchronizingWorkers besides the pick
+		others := false
+		for i := range qa.Workers {
+			if o := &qa.Workers[i]; parseWorkerID(o.ID) != ht {
+				if ob := findWorker(qb, parseWorkerID(o.ID)); ob == nil || ob.Parked != o.Parked {
+					others = true
+				}
+			}
+		}
+		if others {
+			fairCount["dyn-pick-skipped-other-worker-parked-in-segment"]++
+		} else if idx >= 0 {
 			upd := fmt.Sprintf("%sinc %s %d deq %s %d", strings.TrimPrefix(pre+" ", " "), intsSp(p), now, intsSp(p), idx)
 			fairDynCompare(r, c, "pick", upd, nPre+2, root, &qa.RootInvocation)
 		}
